@@ -343,6 +343,26 @@ def real_ecos_stream(ctx):
         if not (st == 'solved' and abs(val - 1.0) <= 1e-4 and np.allclose(uv, [1.0, 2.0], atol=1e-3)):
             fails.append('min t s.t. |(u - (1, 2), w - 3)| <= t, w >= 4 after an earlier Problem left u = (10, 10): reported (%s, %r) with u = %r; the optimum is 1 at u = (1, 2)'
                          % (st, val, uv.tolist()))
+        # set-membership constraints through Problem.solve: a dual product cone whose zero cone comes FIRST (y0 free, the rest constrained), an LP in both
+        # senses and an exponential-cone program with closed-form optima; the returned point lies in the cone and carries the reported value
+        from sageopt.coniclifts.constraints.set_membership.product_cone import DualProductCone
+        yd = cl.Variable(shape=(3,), name='dpc_y1')
+        Kd = [cl.Cone('0', 1), cl.Cone('+', 2)]
+        st, val = cl.Problem(cl.MIN, yd[0] + 2 * yd[1] + 3 * yd[2], [DualProductCone(yd, Kd), yd >= -5, yd <= 5]).solve(solver='ECOS', verbose=False)
+        yv = np.asarray(yd.value, dtype=float)
+        ctx.count('real_ecos', 'dual_product_cone_zero_first')
+        if not (st == 'solved' and abs(val + 5.0) <= 1e-5 and np.all(yv[1:] >= -1e-5) and abs(float(yv @ np.array([1.0, 2.0, 3.0])) - val) <= 1e-5):
+            fails.append('min y0 + 2y1 + 3y2 s.t. y in (0 x R^2_+)^* = R x R^2_+, -5 <= y <= 5: reported (%s, %r) at y = %r; the optimum is -5 at (-5, 0, 0)' % (st, val, yv.tolist()))
+        yd2 = cl.Variable(shape=(3,), name='dpc_y2')
+        st, val = cl.Problem(cl.MAX, -yd2[2] - yd2[0], [DualProductCone(yd2, Kd), yd2 >= -5, yd2 <= 5]).solve(solver='ECOS', verbose=False)
+        yv = np.asarray(yd2.value, dtype=float)
+        if not (st == 'solved' and abs(val - 5.0) <= 1e-5 and np.all(yv[1:] >= -1e-5)):
+            fails.append('max -y2 - y0 s.t. y in R x R^2_+, -5 <= y <= 5: reported (%s, %r) at y = %r; the optimum is 5' % (st, val, yv.tolist()))
+        ye = cl.Variable(shape=(5,), name='dpc_ye')
+        Ke = [cl.Cone('0', 2), cl.Cone('e', 3)]
+        st, val = cl.Problem(cl.MIN, ye[3] + ye[0], [DualProductCone(ye, Ke), ye[2] == -1, ye[4] == 1, ye >= -2, ye <= 2]).solve(solver='ECOS', verbose=False)
+        if not (st == 'solved' and abs(val - (math.exp(-2.0) - 2.0)) <= 1e-4):
+            fails.append('min y3 + y0 s.t. y in (0^2 x K_exp)^*, y2 = -1, y4 = 1, -2 <= y <= 2: reported (%s, %r); the optimum is exp(-2) - 2 = %r' % (st, val, math.exp(-2.0) - 2.0))
         # an objective in which a ScalarVariable cancels (telescoping sums) and that ScalarVariable occurs in no constraint: the model may be refused
         # at construction, but a reported optimum must be the optimum of the objective as written (here 4, attained at w0 = 1, w2 = 5)
         for order in (0, 1, 2):
